@@ -80,7 +80,8 @@ Inductive binop := OAdd | OSub | OMul | ODiv | ORem | OAnd | OOr | OXor | OShl |
                  | OLt | OLe | OGt | OGe | OEq | ONe.
 (* the C library functions the translated code calls; C locale *)
 Inductive builtin := BIsspace | BIsdigit | BIsalpha | BIsupper | BIslower | BIsalnum | BIsprint
-                   | BTolower | BToupper | BStrlen | BStrchr.
+                   | BTolower | BToupper | BStrlen | BStrchr
+                   | BMalloc | BFree | BMemcpy | BMemmove | BMemset.     (* sizes in CELLS: the translator divides the byte counts *)
 
 Definition b2z (b : bool) : Z := if b then 1 else 0.
 Definition chk (t : ity) (z : Z) : res Z :=
@@ -176,6 +177,47 @@ Definition do_builtin (f : builtin) (args : list val) (m : mem) : res val :=
   | BTolower, [VInt c] => do c <- ct_arg c; Ok (VInt (if ct_isupper c then c + 32 else c))
   | BToupper, [VInt c] => do c <- ct_arg c; Ok (VInt (if ct_islower c then c - 32 else c))
   | _, _ => Err EShape
+  end.
+
+(* the library functions that change memory.  malloc(n) appends a fresh block of n indeterminate cells;
+   free(p) empties the block p points to (any later access through it is EOob; p must point to the
+   start of a block that is still allocated, or be NULL); memcpy/memmove copy n cells (read first, then
+   written, so overlapping ranges behave as memmove); memset writes n cells. *)
+Fixpoint read_cells (blk : list val) (o : nat) (n : nat) : res (list val) :=
+  match n with
+  | O => Ok []
+  | S k => match nth_error blk o with
+           | Some v => do r <- read_cells blk (S o) k; Ok (v :: r)
+           | None => Err EOob
+           end
+  end.
+Fixpoint write_cells (m : mem) (b : nat) (o : Z) (vs : list val) : res mem :=
+  match vs with
+  | [] => Ok m
+  | v :: r => do m1 <- store m b o v; write_cells m1 b (o + 1) r
+  end.
+Definition do_builtin_m (f : builtin) (args : list val) (m : mem) : res (val * mem) :=
+  match f, args with
+  | BMalloc, [VInt n] =>
+      if n <? 0 then Err EShape else Ok (VPtr (length m) 0, m ++ [repeat VUndef (Z.to_nat n)])
+  | BFree, [VInt 0] => Ok (VUndef, m)
+  | BFree, [VPtr b 0] =>
+      match nth_error m b with
+      | Some (_ :: _) => match set_nth m b [] with Some m' => Ok (VUndef, m') | None => Err EOob end
+      | _ => Err EOob
+      end
+  | BMemcpy, [VPtr bd od; VPtr bs os; VInt n] | BMemmove, [VPtr bd od; VPtr bs os; VInt n] =>
+      if (n <? 0) || (os <? 0) then Err EOob else
+      match nth_error m bs with
+      | None => Err EOob
+      | Some blk => do vs <- read_cells blk (Z.to_nat os) (Z.to_nat n);
+                    do m' <- write_cells m bd od vs; Ok (VPtr bd od, m')
+      end
+  | BMemset, [VPtr bd od; VInt c; VInt n] =>
+      if n <? 0 then Err EOob else
+      do m' <- write_cells m bd od (repeat (VInt (wrap U8 c)) (Z.to_nat n)); Ok (VPtr bd od, m')
+  | BMalloc, _ | BFree, _ | BMemcpy, _ | BMemmove, _ | BMemset, _ => Err EShape
+  | _, _ => do v <- do_builtin f args m; Ok (v, m)
   end.
 
 Inductive expr :=
@@ -306,7 +348,7 @@ Section Sem.
                            | [] => Ok ([], st)
                            | a :: r => do (v, st1) <- eval a st; do (vs, st2) <- evals r st1; Ok (v :: vs, st2)
                            end) args st;
-        do v <- do_builtin f vs (memm st1); Ok (v, st1)
+        do (v, m') <- do_builtin_m f vs (memm st1); Ok (v, mkst (locals st1) m')
     | EComma a b => do (_, st1) <- eval a st; eval b st1
     end.
 
